@@ -126,9 +126,13 @@ class Gen:
                     tt = r.choice(["int", "list"])
                     test = self.expr(tt, scope, depth - 1, eff) if r.random() < 0.5 else if_(self.expr("bool", scope, depth - 1, eff), self.expr(tt, scope, 0, False), lit(False))
                     f, _ = self.lambda_([tt], ty, False, scope, depth - 1, eff)
+                    f = self.maybe_tick(f, eff)      # the receiver expression itself may have an effect
                     cls.append(clause(test, [f], arrow=True))
                 else:
                     cls.append(clause(self.expr("bool", scope, depth - 1, eff), self.body(ty, scope, depth - 1, eff)))
+            if cls[-1]["arrow"] and r.random() < 0.5:
+                # => clause in last position, no else: the value may be unspecified - use it for effect only
+                return begin(cond(cls), self.expr(ty, scope, depth - 1, eff))
             return cond(cls, els=self.body(ty, scope, depth - 1, eff))
         if c == "case":
             key = self.expr("int", scope, depth - 1, eff)
@@ -140,6 +144,7 @@ class Gen:
                 ds = [vint(pool.pop()) for _ in range(r.randint(1, 3))]
                 if r.random() < 0.2:
                     f, _ = self.lambda_(["int"], ty, False, scope, depth - 1, eff)
+                    f = self.maybe_tick(f, eff)
                     cls.append(cclause(ds, [f], arrow=True))
                 else:
                     cls.append(cclause(ds, self.body(ty, scope, depth - 1, eff)))
